@@ -232,6 +232,40 @@ def name_cases(ctx):
         ctx.violation("C16:name-collision-raise", "maps_all_pins accepted two free pins named alike", {"kind": "names", "case": 3})
     except Exception:
         pass
+    # 3b. a name the user mapped by hand equals the own name of another, still unmapped free pin: raising all pins must be
+    #     rejected, the hand-made mapping must keep pointing at its pin, and the circuit can still be completed and solved
+    for order in (0, 1):
+        ctx.case(("name-collision-raise-mapped", order), tags=["stream:names"])
+        rep = {"kind": "names", "case": "3b", "order": order}
+        try:
+            s = L.Solver()
+            arms = [L.Structure(model=L.Model(pin_dic={L.Pin("a0"): 0, L.Pin("b0"): 1}, Smatrix=np.array([[0, t], [t, 0]], complex))) for t in (0.5, 0.25j)]
+            split = L.Structure(model=L.Model(pin_dic={L.Pin("in"): 0, L.Pin("o1"): 1, L.Pin("o2"): 2},
+                                              Smatrix=np.array([[0, 1, 1], [1, 0, 0], [1, 0, 0]], complex) / np.sqrt(2)))
+            for st in ([split] + arms if order == 0 else arms[::-1] + [split]):
+                s.add_structure(st)
+            s.connect(split, L.Pin("o1"), arms[0], L.Pin("a0"))
+            s.connect(split, L.Pin("o2"), arms[1], L.Pin("a0"))
+            s.map_pins({L.Pin("b0"): (arms[0], L.Pin("b0"))})
+            raised = False
+            try:
+                s.maps_all_pins()
+            except Exception:
+                raised = True
+            if not raised:
+                ctx.violation("C16:name-collision-raise-mapped", "maps_all_pins accepted a free pin whose name equals a name the user had mapped onto another pin", rep)
+                continue
+            if s.pin_mapping.get(L.Pin("b0")) != (arms[0], L.Pin("b0")):
+                ctx.violation("C16:name-collision-raise-mapped", "after the rejected maps_all_pins the hand-mapped name points at another pin", rep)
+                continue
+            s.map_pins({L.Pin("b1"): (arms[1], L.Pin("b0"))})
+            s.maps_all_pins()
+            mod = s.solve()
+            a1, a2 = mod.get_A("in", "b0"), mod.get_A("in", "b1")
+            if abs(a1 - 0.5 / np.sqrt(2)) > 1e-12 or abs(a2 - 0.25j / np.sqrt(2)) > 1e-12:
+                ctx.violation("C16:name-collision-raise-mapped", f"after completing the circuit the named pins report {a1:.4f}, {a2:.4f} (arms confused)", rep)
+        except Exception as e:  # noqa
+            ctx.violation("C16:name-collision-raise-mapped", f"completing the circuit after the rejected call raised {type(e).__name__}: {str(e)[:60]}", rep)
     # 4. renamed pins are addressable by the new names (and only by them)
     for variant in ("put", "get_T", "connect"):
         ctx.case(("renamed", variant), tags=["stream:renamed-pins"])
